@@ -832,7 +832,7 @@ class CircuitTemplate(AbstractBaseTemplate):
 
         # create final set of vectorized edges
         edges = []
-        for (source, target, template, _), values in edge_col.items():
+        for (source, target, template, *_), values in edge_col.items():
 
             # update edge template default values with passed edge values,
             if (source, target) in edge_values:
@@ -1523,7 +1523,9 @@ class CircuitTemplate(AbstractBaseTemplate):
             t_idx = indices[target]
             edge_len = len(s_idx)
 
-            # group edges that connect the same vectorized node variables via the same edge templates
+            # group edges that connect the same vectorized node variables via the same edge templates (edges with a
+            # distributed delay and edges with a discrete or no delay are realised differently and stay apart)
+            delayed = (delayed, bool(edge_dict.get('spread')))
             if (source_new, target_new, template, delayed) in edge_col:
 
                 # extend edge dict by edge variables (an attribute that only some of the grouped edges define, e.g. the
